@@ -1,0 +1,37 @@
+//! Verification hooks (only compiled with `--cfg typstyle_verif`).
+//!
+//! A thread-local counter of entries into the four conversion entry points
+//! (`convert_expr`, `convert_pattern`, `convert_markup_impl`, `convert_math`),
+//! and public access to the private helpers of `utils`.
+
+use std::{cell::Cell, ops::Range};
+
+thread_local! {
+    static CONVERSIONS: Cell<u64> = const { Cell::new(0) };
+}
+
+#[inline]
+pub(crate) fn tick() {
+    CONVERSIONS.with(|c| c.set(c.get() + 1));
+}
+
+/// Number of conversion entry point calls on this thread since the last reset.
+pub fn conversions() -> u64 {
+    CONVERSIONS.with(|c| c.get())
+}
+
+pub fn reset_conversions() {
+    CONVERSIONS.with(|c| c.set(0));
+}
+
+pub fn strip_trailing_whitespace(s: &str) -> String {
+    crate::utils::strip_trailing_whitespace(s)
+}
+
+pub fn trim_range(s: &str, rng: Range<usize>) -> Range<usize> {
+    crate::utils::trim_range(s, rng)
+}
+
+pub fn count_spaces_after_last_newline(s: &str, i: usize) -> usize {
+    crate::utils::count_spaces_after_last_newline(s, i)
+}
